@@ -1,7 +1,7 @@
 """Native replay: talks to /verif/replay's driver built against /repo's current working tree."""
 import os, subprocess, json, select, time, sys
 from . import build
-REPLAY_DIR = os.path.join(build.VERIF, 'replay')
+REPLAY_DIR = build.crate_copy('replay')
 
 def build_driver(profiles=('dev',)):
     """(re)build the driver; the path dependency makes cargo rebuild the crate from /repo's working tree."""
